@@ -234,10 +234,10 @@ func (l *lexer) Lex(lval *yySymType) (tokenType int) {
 		return tok
 	default:
 		if ch >= utf8.RuneSelf {
-			r, size := utf8.DecodeRuneInString(l.source[l.offset-1:])
+			_, size := utf8.DecodeRuneInString(l.source[l.offset-1:])
 			// -1 to adjust for first byte consumed by next()
 			l.offset += size - 1
-			l.token = string(r)
+			l.token = l.source[l.offset-size : l.offset]
 		}
 	}
 	return int(ch)
@@ -443,11 +443,13 @@ func (l *lexer) scanString(start int) (int, string) {
 			case '(':
 				if !l.inString {
 					l.inString = true
+					l.token = l.source[start:l.offset]
 					return tokStringStart, ""
 				}
 				if i == l.offset+1 {
 					l.offset += 2
 					l.inString = false
+					l.token = l.source[i-1 : l.offset]
 					return tokStringQuery, ""
 				}
 				l.offset = i - 1
@@ -483,6 +485,7 @@ func (l *lexer) scanString(start int) (int, string) {
 			}
 			l.inString = false
 			l.offset = i + 1
+			l.token = l.source[i:l.offset]
 			return tokStringEnd, ""
 		default:
 			if !decode {
